@@ -3276,4 +3276,7 @@ theorem accepts_iff_59 (s : Text) :
       unfold acctLenient at hacc
       repeat' split at hacc
       all_goals cases hacc
+/-- the field models print a time of day with the function whose round trip C11 proves (`time_print_parse`, `time_parse_print`) -/
+theorem hhmm_is_printHHMM (t : Nat × Nat) : hhmm t = C11.printHHMM t.1 t.2 := rfl
+
 end SwiftMT.Props.C05
